@@ -579,7 +579,7 @@ def free_run(dc, sc, res, rng, seed, topo, label):
     d = sc.new()
     journal = rng.choice(['wal', 'wal', 'delete', 'truncate', 'persist'])
     res.count('free_runs_journal_' + ('wal' if journal == 'wal' else 'rollback'))
-    dc.Cache(d, disk_min_file_size=T, sqlite_journal_mode=journal).close()
+    dc.Cache(d, disk_min_file_size=T, **common.journal_kw(journal)).close()
     nprod, ncons, n = rng.randrange(2, 4), rng.randrange(1, 4), rng.randrange(40, 90)
     roles = [('producer', i) for i in range(nprod)] + [('consumer', nprod + i) for i in range(ncons)]
     outs = []
